@@ -216,7 +216,7 @@ def expect_runs(rec, spec, X, repo, part, container="frame"):
                       f"p={p} ({container}): {stage} raised {name}: {str(exc)[:120]}", "C14.runs", inp)
         return False
     for s, msg in oc.wellformed(spec, y, n, p):
-        rec.violation(f"{det}:{s}", f"{describe(spec)} n={n} p={p}: output not well-formed: {msg}", "C14.wellformed", inp)
+        rec.violation(oc.qualify(det, s), f"{describe(spec)} n={n} p={p}: output not well-formed: {msg}", "C14.wellformed", inp)
     return True
 
 
